@@ -423,7 +423,8 @@ func (r *Runtime) createHttpRequest(operation *runtime.ClientOperation) (*reques
 		}
 	}
 
-	if _, ok := r.Producers[cmt]; !ok && cmt != runtime.MultipartFormMime && cmt != runtime.URLencodedFormMime {
+	// the description may spell the media type with upper-case letters or parameters ("Application/JSON; charset=utf-8")
+	if bare := bareMediaType(cmt); producerFor(r.Producers, cmt) == nil && bare != runtime.MultipartFormMime && bare != runtime.URLencodedFormMime {
 		return nil, nil, fmt.Errorf("none of producers: %v registered. try %s", r.Producers, cmt)
 	}
 
